@@ -39,8 +39,32 @@ def first_stmt(fn):
     return b[0] if b else None
 
 
+def r7(ctx, rep):
+    """The step limit counts recorded steps and STARTED is set by the tableau's after_rule_apply listener: both presuppose that every
+    rule application reaches the tableau.  Rule.__init__ + Rule.apply folded over an event emitter for both values of `nolock`,
+    and the after_rule_apply listener, are decided in C16.R2; imported."""
+    from ..core import Report
+    from . import c16
+    R7 = rep.rule('C17.R7', 'every rule application is recorded: Rule.__init__ and Rule.apply folded together over an event emitter, for nolock off and on -- one '
+                            'application tells the tableau AFTER_RULE_APPLY exactly once, after the helpers; the tableau listener appends the step and sets STARTED '
+                            '(C16.R2) -- else the step limit never triggers and a started tableau still accepts a new argument')
+    sub = Report('C16', rep.tier, rep.repo)
+    c16.run(ctx, sub)
+    n = 0
+    for f in sub.findings:
+        if f.rule == 'C16.R2' and ('Rule.apply' in f.key or 'after_rule_apply' in f.key):
+            n += 1
+            rep.instance(R7, ok=False, nontrivial=f.key)
+            rep.finding(R7, f.key.replace('C16.', 'C17.R7/C16.', 1), f.where, f.construct, f.msg)
+    for _ in range(max(0, min(sub.rules.get('C16.R2', {}).get('instances', 0), 40) - n)):
+        rep.instance(R7, ok=True)
+    rep.consulted |= sub.consulted
+    rep.floor('C17.R7', 'C16.R2 instances', sub.rules.get('C16.R2', {}).get('instances', 0), 10)
+
+
 def run(ctx, rep):
     m = ctx.m
+    r7(ctx, rep)
     R0 = rep.rule('C17.R0', 'verdict properties folded over all flag combinations: valid/invalid are None unless '
                             'FINISHED and not PREMATURE and an argument is set; valid <=> no open branch')
     res, cons = lifecycle.fold_verdicts(m)
